@@ -53,7 +53,16 @@ def build_and_run(ctx, progs):
     os.makedirs(root, exist_ok=True)
     open(os.path.join(root, "go.mod"), "w").write("module c25run\n\ngo 1.18\n")
     idx = {}
+    solo = {}
     for i, (name, (orig, conv)) in enumerate(sorted(progs.items())):
+        if name in G.SOLO:
+            solo[name] = i
+            for kind, src in (("orig", orig), ("conv", conv)):
+                if src is not None:
+                    d = os.path.join(root, "solo", "%s%d" % (kind, i))
+                    os.makedirs(d, exist_ok=True)
+                    open(os.path.join(d, "main.go"), "w").write(src)
+            continue
         idx[name] = i
         for kind, src in (("orig", orig), ("conv", conv)):
             if src is None:
@@ -63,7 +72,8 @@ def build_and_run(ctx, progs):
             open(os.path.join(d, "p.go"), "w").write(to_pkg(src, "p%d" % i))
     # first round: compile every package, collect the ones that do not build
     ctx.log("behaviour: go build of %d packages" % (2 * len(progs)))
-    rc, out = ctx.run("go build ./... 2>&1", cwd=root, env=goenv(), timeout=600)
+    os.makedirs(os.path.join(root, "solobin"), exist_ok=True)
+    rc, out = ctx.run("go build ./orig/... ./conv/... 2>&1", cwd=root, env=goenv(), timeout=600)
     ctx.log("behaviour: packages built rc=%d" % rc)
     bad = {}
     cur = None
@@ -107,6 +117,17 @@ def build_and_run(ctx, progs):
             res[byidx[i]][kind] = ("compile", msg)
     for m in re.finditer(r"\n<<<(orig|conv) (\d+)>>>\n(.*?)(?=\n<<<(?:orig|conv) \d+>>>\n|\Z)", out3, re.S):
         res[byidx[int(m.group(2))]][m.group(1)] = m.group(3)
+    for name, i in solo.items():
+        for kind in ("orig", "conv"):
+            d = os.path.join(root, "solo", "%s%d" % (kind, i))
+            if not os.path.isdir(d):
+                continue
+            rcb, outb = ctx.run("go build -o ../../solobin/%s%d . 2>&1" % (kind, i), cwd=d, env=goenv(), timeout=300)
+            if rcb != 0:
+                res[name][kind] = ("compile", outb.strip().splitlines()[-1] if outb.strip() else "?")
+                continue
+            rcr, outr = ctx.run("./solobin/%s%d 2>&1" % (kind, i), cwd=root, timeout=60)
+            res[name][kind] = outr
     return res
 
 
@@ -123,7 +144,7 @@ def run(ctx):
         cases.append((name, G.render(decls), G.model_line(decls), "deterministic"))
     for name, src in G.RAW:
         cases.append((name, src, None, "raw"))
-    nrand = ctx.n(40, 800)
+    nrand = ctx.n(24, 800)
     shape = {}
     for i in range(nrand):
         g = G.Gen(ctx.rng)
